@@ -205,3 +205,52 @@ def check(run, prog, tier):
             continue
         run.ob("C06-b", inst, not unguarded, "%d-bit counter %s.%s: %d increment site(s), %d without a saturation test%s" % (w, key[0], key[1], len(lst), len(unguarded), (" e.g. %s" % unguarded[:3]) if unguarded else ""),
                file, line, None, what="%d-bit reference counter %s.%s wraps after 65536 holders (%d unguarded increment sites): the next release frees a value that is still referenced" % (w, key[0], key[1], len(unguarded)))
+
+    # ---- C06-d partial release: free_called_call() does not release the argument array
+    import callgraph
+    import ctxstate
+    run.rule("C06-d", "every call of the partial release free_called_call(X) (it leaves X->vs alone) is reached only after X->vs was dealt with (the `if (X->vs)` transfer/free, or free_call which frees it); for the recovery branch this must hold on every path to a call that can raise", 2)
+    cg = callgraph.CallGraph(prog)
+    eff = callgraph.Effects(cg)
+    fcc = prog.func("free_called_call")
+    run.need(fcc, "free_called_call")
+    # free_called_call really is partial: it never touches ->vs
+    touches_vs = any(n.get("k") == "Mem" and n.get("f") == "vs" for b, i, n in fcc.nodes())
+    run.need(not touches_vs, "free_called_call leaves ->vs alone (otherwise the rule has no subject)")
+    nsite = 0
+    for f in sorted(prog.functions(), key=lambda x: (x.file, x.line)):
+        sites = [(b, i, n) for b, i, n in f.calls("free_called_call")]
+        if not sites or f.name in ("free_call",):
+            continue
+        run.saw(f)
+        handled = {bid for bid in f.reachable() if f.branch_cond(bid) is not None and strip(f.branch_cond(bid)).get("k") == "Mem" and strip(f.branch_cond(bid)).get("f") == "vs"}
+        handled |= {b.id for b, i, n in f.calls() if n.get("fn") in ("free_array", "free_empty_array") and any(x.get("k") == "Mem" and x.get("f") == "vs" for x in walk(n["args"][0]))}
+        sj = [(b, i, n) for b, i, n in f.calls() if n.get("fn") in ctxstate.SETJMP]
+        sj_true = set()
+        region = set()
+        for b, i, n in sj:
+            blk = f.blocks[b.id]
+            if len(blk.succ) == 2 and blk.succ[0] is not None:
+                sj_true.add((b.id, blk.succ[0]))
+                region |= cfgq.reach_set(f, [blk.succ[1]]) if blk.succ[1] is not None else set()
+        for j, (b, i, n) in enumerate(sorted(sites, key=lambda x: x[2].get("l") or 0)):
+            nsite += 1
+            x = strip(n["args"][0])
+            # where X was last (re)defined: the dequeue
+            defs = [(b2, i2) for b2, i2, n2 in f.nodes() if n2.get("k") == "Asg" and n2.get("op") == "=" and strip(n2["L"]).get("k") == "Ref" and strip(n2["L"]).get("id") == x.get("id") and const_val(n2["R"]) != 0]
+            starts = [d[0].id for d in defs] or [f.entry]
+            p = f.reach_avoiding(starts, lambda blk, t=b.id: blk.id == t, avoid_blocks=handled, avoid_edges=sj_true)
+            why = None
+            if p is not None:
+                why = "path %s reaches free_called_call() at line %s without passing the `->vs` test/transfer: the argument array of that entry is never released" % (p[:8], n.get("l"))
+            else:
+                # recovery: every raising call inside the protected region must itself come after the hand-over
+                for b3, i3, n3 in f.calls():
+                    if b3.id in region and eff.call_may_raise(f, n3) and b3.id not in handled:
+                        q = f.reach_avoiding(starts, lambda blk, t=b3.id: blk.id == t, avoid_blocks=handled, avoid_edges=sj_true)
+                        if q is not None and n3.get("fn") not in ("transfer_push_some_svalues",):
+                            why = "%s() at line %s can raise before the argument array was handed over; the recovery branch then releases the entry with free_called_call()" % (n3.get("fn") or "(*)", n3.get("l"))
+                            break
+            run.ob("C06-d", "partial-release:%s:%s:%d" % (rel(f.file), f.name, j), why is None, why or "free_called_call() at line %s is reached only after the entry's argument array was transferred or found absent" % n.get("l"),
+                   f.file, n.get("l"), f.name, what="%s releases a pending call with free_called_call() on a path where its argument array is still attached (leak of the array and everything it references)" % f.name)
+    run.need(nsite >= 2, "free_called_call call sites outside free_call (found %d)" % nsite)
